@@ -54,6 +54,7 @@ def run(ctx, rep):
         rep.touched(RT, "DefaultFunction::force_count")
         rep.touched(RT, "DefaultFunction::call")
         br.rule_arity(t, rep, "R03-ARITY")
+        one_arm_per_variant(rep, "R03-ARITY", "DefaultFunction::call", sh, RT, t.call_match)
         # the three tables are total (no catch-all)
         for name in ("arity", "force_count", "arg_is_unit"):
             f = find_method(sh.file(RT), "DefaultFunction", name)
@@ -88,6 +89,7 @@ def r_frames(sh, rep):
     rep.touched(M, "Machine::compute")
     rep.touched(M, "Machine::return_compute")
     cm = next(matches_in(comp["body"], lambda e: e["k"] == "Path" and e["p"] == "term"))
+    one_arm_per_variant(rep, "R03-FRAMES", "compute", sh, M, cm)
     crow = {}
     for v, arm, alt in arm_table(cm):
         if v is None:
@@ -106,6 +108,7 @@ def r_frames(sh, rep):
         else:
             rep.check(not pushed, "R03-FRAMES", "compute#%s#frame" % v, sh.loc(M, arm), "compute(Term::%s) pushes %s but this constructor needs no frame" % (v, pushed), sample={"constructor": v, "pushes": pushed})
     rm = next(matches_in(rc["body"], lambda e: e["k"] == "Path" and e["p"] == "context"))
+    one_arm_per_variant(rep, "R03-FRAMES", "return_compute", sh, M, rm)
     rrow = {}
     for v, arm, alt in arm_table(rm):
         if v is None:
